@@ -131,6 +131,8 @@ pub struct Sim {
     pub rng: Rng,
     pub rec: Recorder,
     pub next_payload: u64,
+    /// messages delivered earlier (bounded sample): re-delivered much later as stale duplicates
+    pub archive: Vec<Message>,
     pub max_log: u64,
     pub trace: Vec<String>,
     pub keep_trace: bool,
@@ -146,6 +148,9 @@ pub struct Sim {
     /// monitor-only: mixes ill-addressed steps (local message types, responses of unknown
     /// peers) into the random events; consumes random numbers only when set
     pub extra_steps: bool,
+    /// adversarial runs (pointwise tie (A) only, no P traces, no monitors): hand-made peer
+    /// messages with fields chosen around the receiver's state are stepped as well
+    pub adversarial: bool,
     /// monitor-only: forces pre_vote and check_quorum on, no learners, priority 0, >= 3 voters
     pub force_prevote_cq: bool,
     /// monitor-only: every node's Storage::snapshot is the application's real snapshot (never
@@ -189,7 +194,7 @@ pub fn call_kind(c: &Call) -> &'static str {
 
 impl Sim {
     pub fn new(seed: u64, rec: Recorder) -> Sim {
-        Sim { nodes: vec![], net: vec![], rng: Rng::new(seed), rec, next_payload: 1, max_log: 12, trace: vec![], keep_trace: false, trace_tail: 60, run_id: seed, trace_len: 0, mon: None, halted: false, quiet: false, extra_steps: false, force_prevote_cq: false, force_sim_snap: false, voter_campaign_only: false, pt: Default::default() }
+        Sim { nodes: vec![], net: vec![], rng: Rng::new(seed), rec, next_payload: 1, archive: vec![], max_log: 12, trace: vec![], keep_trace: false, trace_tail: 60, run_id: seed, trace_len: 0, mon: None, halted: false, quiet: false, extra_steps: false, adversarial: false, force_prevote_cq: false, force_sim_snap: false, voter_campaign_only: false, pt: Default::default() }
     }
 
     /// Random cluster shape and per-node configuration.
@@ -677,6 +682,13 @@ impl Sim {
         }
         let k = self.rng.below(self.net.len().min(12) as u64) as usize;
         let m = if self.rng.chance(9, 10) { self.net.remove(k) } else { self.net[k].clone() };
+        // snapshots are always kept for a later stale re-delivery, other messages as a bounded sample
+        if self.archive.len() < 256 {
+            self.archive.push(m.clone());
+        } else if m.get_msg_type() == MessageType::MsgSnapshot || self.rng.chance(1, 4) {
+            let j = self.rng.below(256) as usize;
+            self.archive[j] = m.clone();
+        }
         if let Some(i) = self.idx_of(m.to) {
             self.call(i, Call::Step(m));
         }
@@ -711,6 +723,97 @@ impl Sim {
             4 => CcKind::V2(cc_v2(0, &[])),
             _ => CcKind::V2(cc_v2(self.rng.below(3), &changes)),
         }
+    }
+
+    /// A hand-made message for node i (adversarial runs only): any non-local type, any sender,
+    /// term / index / commit values around the receiver's own.
+    pub(crate) fn adversarial_msg(&mut self, i: usize) -> Option<Message> {
+        let nn = self.nodes.len() as u64;
+        let (id, term, committed, last, first) = {
+            let d = self.nodes[i].driver.as_ref()?;
+            let r = &d.node.raft;
+            (r.id, r.term, r.raft_log.committed, r.raft_log.last_index(), r.raft_log.first_index())
+        };
+        use MessageType::*;
+        let ty = *self.rng.pick(&[MsgAppend, MsgAppend, MsgAppendResponse, MsgAppendResponse, MsgRequestVote, MsgRequestVoteResponse,
+            MsgSnapshot, MsgSnapshot, MsgHeartbeat, MsgHeartbeatResponse, MsgTimeoutNow, MsgReadIndex, MsgReadIndexResp,
+            MsgRequestPreVote, MsgRequestPreVoteResponse, MsgTransferLeader, MsgPropose]);
+        let around = |rng: &mut Rng, xs: &[u64]| -> u64 {
+            let b = *rng.pick(xs);
+            match rng.below(4) {
+                0 => b.saturating_sub(1),
+                1 => b + 1,
+                _ => b,
+            }
+        };
+        let mut m = Message::default();
+        m.set_msg_type(ty);
+        m.to = id;
+        m.from = 1 + self.rng.below(nn + 1);
+        m.term = if matches!(ty, MsgPropose | MsgReadIndex | MsgTransferLeader) && self.rng.chance(3, 4) { 0 } else { around(&mut self.rng, &[term, term, term + 1, 0]) };
+        m.log_term = self.rng.below(term + 2);
+        m.index = around(&mut self.rng, &[committed, last, first, 0, last + 2]);
+        m.commit = around(&mut self.rng, &[committed, last, 0, last + 3]);
+        m.commit_term = self.rng.below(term + 2);
+        m.reject = self.rng.chance(1, 3);
+        m.reject_hint = around(&mut self.rng, &[committed, last, 0]);
+        m.request_snapshot = if self.rng.chance(1, 5) { around(&mut self.rng, &[committed, last]) } else { 0 };
+        m.priority = self.rng.below(3) as i64 - 1;
+        if self.rng.chance(1, 3) {
+            m.context = vec![(self.next_payload % 250) as u8, 1, 2].into();
+        }
+        if matches!(ty, MsgAppend | MsgPropose | MsgReadIndex | MsgReadIndexResp) || self.rng.chance(1, 10) {
+            let k = self.rng.below(4);
+            let mut ents = vec![];
+            for j in 0..k {
+                let mut e = Entry::default();
+                e.index = if ty == MsgPropose { 0 } else { m.index + 1 + j };
+                e.term = if ty == MsgPropose { 0 } else { 1 + self.rng.below(m.term.max(1)) };
+                if self.rng.chance(1, 4) {
+                    let (ety, data) = match self.random_cc() {
+                        CcKind::V1(cc) => (EntryType::EntryConfChange, cc.write_to_bytes().unwrap()),
+                        CcKind::V2(cc) => (EntryType::EntryConfChangeV2, cc.write_to_bytes().unwrap()),
+                        CcKind::Raw(t, d) => (if t == 1 { EntryType::EntryConfChange } else { EntryType::EntryConfChangeV2 }, d),
+                    };
+                    e.set_entry_type(ety);
+                    e.data = data.into();
+                } else {
+                    e.data = self.payload().into();
+                }
+                ents.push(e);
+            }
+            m.set_entries(ents.into());
+        }
+        if ty == MsgSnapshot || self.rng.chance(1, 20) {
+            let mut sn = Snapshot::default();
+            let md = sn.mut_metadata();
+            md.index = around(&mut self.rng, &[committed, last, first, last + 2, 0]);
+            md.term = self.rng.below(term + 2);
+            let ids: Vec<u64> = (1..=nn + 1).collect();
+            let cs = md.mut_conf_state();
+            for x in &ids {
+                match self.rng.below(6) {
+                    0 | 1 | 2 => cs.voters.push(*x),
+                    3 => cs.learners.push(*x),
+                    _ => {}
+                }
+            }
+            if self.rng.chance(1, 4) {
+                for x in &ids {
+                    if self.rng.chance(1, 2) {
+                        cs.voters_outgoing.push(*x);
+                    }
+                }
+                for x in &ids {
+                    if self.rng.chance(1, 5) {
+                        cs.learners_next.push(*x);
+                    }
+                }
+                cs.auto_leave = self.rng.chance(1, 2);
+            }
+            m.set_snapshot(sn);
+        }
+        Some(m)
     }
 
     pub(crate) fn compact(&mut self, i: usize) {
@@ -758,6 +861,13 @@ impl Sim {
     }
 
     pub fn step_random(&mut self) {
+        if self.adversarial && self.rng.chance(1, 10) {
+            let i = self.rng.below(self.nodes.len() as u64) as usize;
+            if let Some(m) = self.adversarial_msg(i) {
+                self.call(i, Call::Step(m));
+            }
+            return;
+        }
         if self.extra_steps && self.rng.chance(1, 40) {
             self.bogus_step();
             return;
@@ -769,7 +879,20 @@ impl Sim {
             0..=219 => {
                 self.call(i, Call::Tick);
             }
-            220..=519 => self.deliver(),
+            220..=231 => {
+                // a stale duplicate: some message delivered arbitrarily long ago arrives again
+                if self.archive.is_empty() {
+                    self.deliver();
+                } else {
+                    let snaps: Vec<usize> = (0..self.archive.len()).filter(|&j| self.archive[j].get_msg_type() == MessageType::MsgSnapshot).collect();
+                    let j = if !snaps.is_empty() && self.rng.chance(1, 2) { *self.rng.pick(&snaps) } else { self.rng.below(self.archive.len() as u64) as usize };
+                    let m = self.archive[j].clone();
+                    if let Some(i) = self.idx_of(m.to) {
+                        self.call(i, Call::Step(m));
+                    }
+                }
+            }
+            232..=519 => self.deliver(),
             520..=719 => self.ready_round(i),
             720..=769 => {
                 self.persist_async(i);
